@@ -295,7 +295,12 @@ for _c in CUST:
     globals()[_c.__name__] = _c      # importable: pickling of treespecs
 
 
+HOOK = None      # fault injection (property C15): called with ('flatten'|'unflatten', object)
+
+
 def cust_flatten(x):
+    if HOOK is not None:
+        HOOK('flatten', x)
     eb = x.eb
     md = (x.meta, eb)
     t = eb[0]
@@ -317,6 +322,8 @@ def cust_flatten(x):
 
 def cust_unflatten_for(cls):
     def unflatten(md, children):
+        if HOOK is not None:
+            HOOK('unflatten', md)
         return cls(list(children), md[0], md[1])
     return unflatten
 
